@@ -36,6 +36,7 @@ def body(run):
     if vac:
         raise vf.MachineryError("model checking of OneWay is vacuous: actions never taken: %s" % sorted(vac))
     if th:
+        run.mc("MC_OneWay", cfg="MC_OneWay_direct4.cfg", workers=w)
         run.mc("MC_OneWay", cfg="MC_OneWay_queue4.cfg", workers=w)
     run.mc("MC_OneWay", cfg="MC_OneWay_live.cfg", workers=w)
     run.mc("MC_OneWay", cfg="MC_OneWay_qlive.cfg", workers=w)
@@ -46,6 +47,12 @@ def body(run):
     out, meta = run.drive("c06", timeout=run.pick(600, 2400))
     run.absorb(meta)
     jobs = meta.get("jobs", [])
+    # histories in which a wait FOR a state ran into its bound (machine load) are void: not judged, counted here
+    void = (meta.get("extra") or {}).get("c06_void_histories") or []
+    run.extra["c06_void_histories"] = void
+    nh = sum(j.get("histories", 0) for j in jobs) or run.pick(75, 520)
+    if len(void) > max(2, nh // 10):
+        raise vf.MachineryError("too many void histories (%d): the machine is too loaded for a verdict: %s" % (len(void), void[:5]))
     gate = dict(meta, jobs=[j for j in jobs if j["trace"].startswith("c06_gate")])
     rest = dict(meta, jobs=[j for j in jobs if not j["trace"].startswith("c06_gate")])
     # the imposed schedules first: their verdict is reproducible by construction
